@@ -255,6 +255,9 @@ SIG = {
     # with hash160 only (what self.hash160 is set to), PublicKey.get_address (the stored hex string of the P2PKH address object)
     'is_hash160_valid': ('keys.py', 'Address._is_hash160_valid', [('hash160', 'List Char')], 'Bool'),
     'address_init_hash160': ('keys.py', 'Address.__init__', [('hash160', 'List Char')], 'List Char'),
+    'address_init_address': ('keys.py', 'Address.__init__',
+                             [('hashlib_sha256', 'Bytes → Bytes'), ('b58decode', 'String → Except PyErr Bytes'), ('self_type', 'String'),
+                              ('p2pkh_prefix', 'Bytes'), ('p2sh_prefix', 'Bytes'), ('address', 'String')], 'Bytes'),
     'address_init_script': ('keys.py', 'Address.__init__',
                             [('hashlib_sha256', 'Bytes → Bytes'), ('OPS', 'List (String × Bytes)'), ('script', 'List Py.PyTok')], 'Bytes'),
     'pubkey_get_address': ('keys.py', 'PublicKey.get_address',
@@ -1433,6 +1436,8 @@ class Tr:
         return False
 
     def cond(s, n):
+        if s.name == 'address_init_address' and isinstance(n, ast.Name) and n.id == 'address': return '(!(String.isEmpty address))'
+        if s.name == 'address_init_address' and isinstance(n, ast.Call) and getattr(n.func, 'id', '') == '_is_address_valid': return s.e(n)
         if s.name == 'segwit_init' and isinstance(n, ast.Name) and n.id in ('address', 'witness_program'):
             return f'(match {n.id} with | some v_ => !(List.isEmpty v_) | none => false)'        # truthiness of None / a str
         t = s.e(n)
@@ -1501,6 +1506,10 @@ class Tr:
                 t = args[0].value.id
                 comps = f'{t}.1 {t}.2.1 {t}.2.2.1 {t}.2.2.2.1 {t}.2.2.2.2'
                 return s.eff(f'rmd_compress {comps} {s.e(args[1])}')
+            if s.name == 'address_init_address' and len(args) == 1 and not kw and isinstance(args[0], ast.Name) and args[0].id == 'address':
+                if f.id == '_is_address_valid':
+                    return s.eff('is_address_valid hashlib_sha256 b58decode self_type p2pkh_prefix p2sh_prefix address')
+                if f.id == '_address_to_hash160': return s.eff('address_to_hash160 b58decode address')
             if (f.id == '_script_to_hash160' and s.name == 'address_init_script' and len(args) == 1 and not kw and isinstance(args[0], ast.Name)
                     and args[0].id in s.toklists):       # (self.… inside __init__ is rewritten to a plain name)
                 return s.eff(f'address_script_to_hash160 hashlib_sha256 OPS {args[0].id}')
@@ -2368,6 +2377,8 @@ class Tr:
             node = s.ctor_branch(node, 'hash160', ['address', 'script'], 'hash160')
         if s.name == 'segwit_init':
             node = s.ctor_segwit(node)
+        if s.name == 'address_init_address':
+            node = s.ctor_branch(node, 'address', ['hash160', 'script'], 'hash160')
         if s.name == 'address_init_script':
             node = s.ctor_branch(node, 'script', ['hash160', 'address'], 'hash160', truthy=True)
         strpre = []
